@@ -219,7 +219,7 @@ def _rand(*args):
     elif len(args) == 2:
         min_ = args[0]
         max_ = args[1]
-        return Decimal(random.randint(min_, max_))
+        return Decimal(random.randint(int(min_), int(max_)))
 
     raise ParserError(f'Not supported rand() params: {args}')
 
